@@ -1192,6 +1192,47 @@ fn value_checks(s: &mut Sum) {
 }
 
 // ---------------------------------------------------------------------------------------------------------------------
+/// Encode side of the metadata slot: a region created under a name of `bytes` bytes made of `charw`-byte characters.
+/// expect "ok": creation succeeds and, after a write, a flush and a reopen, the region is there under exactly that name with
+/// its bytes; expect "refused": creation is refused (an error or the documented assertion), and nothing is left behind.
+fn name_case(s: &mut Sum, case: &Value, expect: &str) {
+    let bytes = case["bytes"].as_u64().unwrap() as usize;
+    let charw = case["charw"].as_u64().unwrap() as usize;
+    let ch = match charw { 1 => "a", 2 => "\u{e9}", 3 => "\u{20ac}", _ => "\u{1F600}" };
+    let mut id = ch.repeat(bytes / charw);
+    while id.len() < bytes { id.push('a'); }
+    *s.by_kind.entry("name".into()).or_default() += 1;
+    s.evaluations += 1;
+    let scratch = Scratch::new("name");
+    let created = catch_unwind(AssertUnwindSafe(|| -> Result<bool, String> {
+        let db = rawdb::Database::open(scratch.path()).map_err(|e| format!("{e:?}"))?;
+        let r = db.create_region_if_needed(&id).map_err(|e| format!("{e:?}"))?;
+        r.write(b"payload").map_err(|e| format!("{e:?}"))?;
+        db.flush().map_err(|e| format!("{e:?}"))?;
+        Ok(true)
+    }));
+    let accepted = matches!(created, Ok(Ok(true)));
+    if expect == "ok" && !accepted {
+        s.violate("name_refused", case, "a valid region name was refused", format!("{:?}", created.as_ref().map_err(|_| "panic")));
+        return;
+    }
+    // whatever happened at creation, the files must reopen, and an accepted name must round-trip
+    let reopened = catch_unwind(AssertUnwindSafe(|| -> Result<Option<Vec<u8>>, String> {
+        let db = rawdb::Database::open(scratch.path()).map_err(|e| format!("{e:?}"))?;
+        Ok(db.get_region(&id).map(|r| r.create_reader().read_all().to_vec()))
+    }));
+    match reopened {
+        Err(_) => s.violate("name_reopen_panic", case, "reopening after creating a region panicked", String::new()),
+        Ok(Err(e)) => s.violate("name_reopen_err", case, "reopening after creating a region failed", e),
+        Ok(Ok(got)) => {
+            if accepted && got.as_deref() != Some(b"payload".as_slice()) {
+                s.violate("name_lost", case, "a region whose creation, write and flush succeeded is not there (or differs) after reopen",
+                          format!("name of {} bytes ({} chars); found {:?}", id.len(), id.chars().count(), got.map(|g| g.len())));
+            }
+        }
+    }
+}
+
 pub fn main(args: &[String]) -> i32 {
     let f = parse_flags(args);
     let input = f.get("in").expect("--in");
@@ -1245,6 +1286,10 @@ pub fn main(args: &[String]) -> i32 {
                 true
             }
             "change" => change_case(&mut s, &mut jobs, case, expect, &mut sweeps),
+            "name" => {
+                name_case(&mut s, case, expect);
+                true
+            }
             other => panic!("case kind {other}"),
         };
         if executed {
